@@ -260,4 +260,20 @@ def emptyOkGo (m : Method) : Option Name → List Ev → Bool
   | none, .end_ _ :: rest => emptyOkGo m none rest
   | none, .text _ _ :: rest => emptyOkGo m none rest
 
+/-- with `strip_whitespace` every run of character data is normalised as the option documents -/
+def flushDataS (pend : List Char) : List Ev := flushData (normWs pend)
+
+def coalesceStripGo : List Char → List Ev → List Ev
+  | pend, [] => flushDataS pend
+  | pend, .text s f :: rest => coalesceStripGo (pend ++ textValue s f) rest
+  | pend, .start t a :: rest => flushDataS pend ++ .start t a :: coalesceStripGo [] rest
+  | pend, .end_ t :: rest => flushDataS pend ++ .end_ t :: coalesceStripGo [] rest
+
+def coalesceStrip (evs : List Ev) : List Ev := coalesceStripGo [] evs
+
+/-- no element in which white space is preserved (`pre`, `textarea` under xhtml / html) -/
+def noPreserveB (m : Method) : Ev → Bool
+  | .start t _ => !(preserveElems m).contains t
+  | _ => true
+
 end Genshi.Subst
